@@ -64,22 +64,37 @@ def _one(case, el, vr, vc, r, fast):
     if hard.any():
         i, j = np.argwhere(hard)[0]
         kind = "reported_visible_but_blocked" if vis_o[i, j] else "reported_invisible_but_clear"
+        big = el.size > 2000
         r.fail("viewshed.visibility." + kind, "observer (%d,%d) cell (%d,%d): got %r, model %r, margin %.3g\nterrain=%s\nout=%s\nref=%s" % (
-            vr, vc, i, j, o[i, j], ref[i, j], margin[i, j], el.tolist(), o.tolist(), ref.tolist()))
+            vr, vc, i, j, o[i, j], ref[i, j], margin[i, j], case["terrain"] if big else el.tolist(), "(omitted)" if big else o.tolist(),
+            "(%d mismatching cells)" % int(hard.sum()) if big else ref.tolist()))
         return 0, 0
     both = vis_o & vis_r
     if both.any():
         d = np.abs(o[both] - ref[both])
         if (d > 1e-9).any():
-            r.fail("viewshed.vertical_angle", "max |angle diff| %.3g; out=%s ref=%s" % (d.max(), o.tolist(), ref.tolist()))
+            r.fail("viewshed.vertical_angle", "max |angle diff| %.3g; out=%s ref=%s" % (d.max(), o.tolist() if o.size < 2000 else "(omitted)",
+                                                                                       ref.tolist() if o.size < 2000 else "(omitted)"))
             return 0, 0
     ninv = int((~vis_r).sum())
     nvis = int(vis_r.sum()) - 1
     return ninv, nvis
 
 
+def _terrain(case):
+    t = case["terrain"]
+    if "far" in t:
+        # long, narrow raster given by its few non-zero cells (thousands of cells cannot be drawn one by one)
+        h, w, spikes = t["far"]
+        a = np.zeros((h, w), dtype=t.get("dtype", "float64"))
+        for (i, j, z) in spikes:
+            a[i, j] = z
+        return a
+    return dec_arr(t)
+
+
 def body_vs(case, ctx):
-    el = dec_arr(case["terrain"])
+    el = _terrain(case)
     H, W = el.shape
     r = R()
     fast = H * W > 36
@@ -221,6 +236,35 @@ def vs_cases(draw, max_side, all_obs=False, big=False):
 
 
 @st.composite
+def far_cases(draw, max_w):
+    """Long-distance angular resolution: 2-4 rows x 1000-4000 columns of flat ground with a few ridge / pit cells in the near half; the shadow
+    edge of a ridge 900 cells out passes between far cells whose bearings differ by ~1e-7 rad."""
+    h = draw(st.integers(2, 4))
+    w = draw(st.integers(max_w // 3, max_w))
+    oc = draw(st.sampled_from([0, 0, w - 1]))
+    obs = draw(st.sampled_from([1, 1, 2.5, 0.5, 10]))
+    spikes = []
+    for _ in range(draw(st.integers(2, 8))):
+        # ridges between 1/6 and 1/2 of the raster's length away from the observer: the far edge of their shadow falls inside the raster,
+        # on cells 2-3 times as far away
+        d = draw(st.integers(w // 6, (w - 3) // 2))
+        z = draw(st.sampled_from([8, 20, 3, 8, 20, -8, 1]))
+        row = draw(st.integers(0, h - 1))
+        spikes.append([row, d if oc == 0 else w - 1 - d, z])
+        if draw(st.booleans()):
+            # a pit right in front of / behind the ridge keeps the shared corners low: the ridge cell alone decides its shadow's edge
+            side = draw(st.sampled_from([-1, -1, 1]))
+            spikes.append([row, (d + side) if oc == 0 else w - 1 - (d + side), -z])
+    case = {"sub": "vs", "kind": "far", "terrain": {"far": [h, w, spikes], "dtype": "float64"},
+            "obs": obs, "tgt": draw(st.sampled_from([0, 0, 1])),
+            "sx": draw(st.sampled_from([1, 1, 0.5, 30])), "sy": 0, "ydesc": draw(st.booleans()), "xdesc": draw(st.sampled_from([False, False, True])),
+            "y0": 0, "x0": draw(st.sampled_from([0, 100])),
+            "observer": [draw(st.integers(0, h - 1)), oc]}
+    case["sy"] = draw(st.sampled_from([case["sx"], case["sx"], case["sx"] * 2]))
+    return case
+
+
+@st.composite
 def twin_cases(draw):
     c = draw(vs_cases(6))
     c["sub"] = "twin"
@@ -239,7 +283,11 @@ def shards(tier):
             out.append(("allobs#%d" % i, lambda ctx: drive_hypothesis(ctx, body_vs, vs_cases(5, all_obs=True), 60)))
         out.append(("big#0", lambda ctx: drive_hypothesis(ctx, body_vs, vs_cases(24, big=True), 60, shrink=False)))
         out.append(("twin#0", lambda ctx: drive_hypothesis(ctx, body_twin, twin_cases(), 150)))
+        for i in range(4):
+            out.append(("far#%d" % i, lambda ctx: drive_hypothesis(ctx, body_vs, far_cases(3000), 60, shrink=False)))
     else:
+        for i in range(8):
+            out.append(("far#%d" % i, lambda ctx: drive_hypothesis(ctx, body_vs, far_cases(4000), 500, shrink=False)))
         for i in range(12):
             out.append(("small#%d" % i, lambda ctx: drive_hypothesis(ctx, body_vs, vs_cases(8), 12000)))
         for i in range(8):
